@@ -122,8 +122,9 @@ func Decode(reader io.Reader, values ...interface{}) (err error) {
 				return errors.WithMessage(err, "reading length of binary data")
 			}
 
-			// Nothing to be decoded when length is zero.
+			// Nothing to be read when length is zero.
 			if length == 0 {
+				err = errors.WithMessage(v.UnmarshalBinary(nil), "unmarshaling empty binary data")
 				break
 			}
 
